@@ -85,6 +85,14 @@ def run(res, replay=None):
                 s['migration_rates'] = {f'{pp[0]}>{pp[1]}': {'0.0': 0.25}, f'{pp[1]}>{pp[0]}': {'0.0': 1.5}}
                 s['pop_sizes'] = {pp[1]: {'0.0': 1.0}, pp[0]: {'0.0': 2.0}}
             specs.append(s)
+    if not replay:
+        # designed: two loci in two demes whose MIGRATION rates change at an epoch boundary (sizes constant): linked lineages must migrate
+        # with the rates of the epoch in force, like unlinked ones (each locus marginal is the single-locus value)
+        for r_ in ((0.5,) if res.tier == 'quick' else (0.0, 0.5, 4.0)):
+            specs.append({'n_items': [['a', 1], ['b', 1]], 'model': {'kind': 'kingman'}, 'loci': 2, 'recombination_rate': r_, 'n_unlinked': 0,
+                          'rec_route': 'locus_config', 'pop_sizes': {'a': {'0.0': 1.0}, 'b': {'0.0': 2.0}},
+                          'migration_rates': {'a>b': {'0.0': 0.25, '0.75': 2.0}, 'b>a': {'0.0': 1.0, '0.75': 0.125}},
+                          'designed': 'migration_change_two_loci'})
     items = [dict(spec=s, lc=True, ops=build_ops(rng, s)) for s in specs]
     results = N.run_items(res, 'C06', 'twolocus', items, what='two-locus statistic differs from the ARG value (model)')
     # oracles on the implementation: marginal = single locus; r = 0 => corr 1; cov -> 0
